@@ -42,6 +42,18 @@ MC_MaxTimesNone == {}
 MC_MaxTimesLow == { 1, 100 }
 MC_MaxTimesAll == { 0, 1, 100 }
 
+(* the list of names handed out by GetSeriesList, caller-side re-ordering of it, and edits of the store that  *)
+(* keep the number of series (x is replaced by a, and back)                                                  *)
+MC_NGroupsNone == {}
+MC_NGroupsMain == { "main" }
+MC_NGroupsMainStep == { "main", "step" }
+MC_MutOpsTwo == { "append", "pop" }
+MC_MutOpsAll == { "append", "pop", "reverse" }
+MC_RenamesNone == {}
+MC_RenamesXA == { << "x", "a" >>, << "a", "x" >> }
+MC_AsksNames == { << "main", "x" >>, << "main", "a" >> }
+MC_CutsNone == { NoCut }
+
 MC_RMain == { "main" }
 MC_RMainStep == { "main", "step" }
 
